@@ -74,7 +74,8 @@ func (a *Application) registerTranslatorRoutes() {
 			path := pathProvider.GetAPIPath()
 			handler := a.translationHandler(trans)
 
-			a.routeRegistry.RegisterWithMethod(
+			// messages are forwarded to a backend: same admission limits as the proxy routes
+			a.routeRegistry.RegisterGuardedRoute(
 				path,
 				handler,
 				name+" Messages API",
